@@ -6,6 +6,9 @@
 EXTENDS Naturals, FiniteSets, TLC, Json
 CONSTANTS Names,        \* file names that match the pattern
           MaxClock, AllowCrash, MaxEdits,
+          Backend,      \* "make" | "ninja": what the build tool does with a truncated build file
+          AtomicMk,     \* TRUE: the build file is written to a temporary file and renamed into place
+                        \* (the repaired Ninja writer); FALSE: truncated in place (Make writer, pinned Ninja writer)
           Fixed         \* TRUE: the repaired algorithm (depfile replaced atomically, a cache newer than the
                         \* outputs counts as out of date, the depfile is refreshed when regeneration is
                         \* skipped); FALSE: the pinned tree's algorithm (kept as a vacuity guard)
@@ -64,8 +67,11 @@ Watched == IF mk.st = "ok" /\ mk.desc.inc /\ deps.st = "ok" THEN deps.dirs ELSE 
 OutOfDate == \/ smt > mk.mt
              \/ \E d \in Watched : d \notin dirs \/ dmt[d] > mk.mt
 MakeCheck == /\ pc \in {"idle", "done0"}
-             /\ IF mk.st # "ok" \/ (mk.desc.inc /\ deps.st = "absent")
-                  THEN pc' = "failed"                 \* make cannot even load the file: visible
+             /\ IF mk.st = "absent" \/ (mk.st = "trunc" /\ Backend = "make")
+                   \/ (mk.st = "ok" /\ mk.desc.inc /\ deps.st = "absent")
+                  THEN pc' = "failed"                 \* the tool cannot even load the file: visible
+                \* an empty build.ninja is a valid manifest with nothing to do (and no regeneration rule)
+                ELSE IF mk.st = "trunc" THEN pc' = "uptodate"
                 ELSE IF OutOfDate THEN pc' = "loadenv"
                 ELSE pc' = "uptodate"
              /\ UNCHANGED <<dirs, files, dmt, sver, smt, mk, cache, deps, envf, clock, loc, crashes, edits>>
@@ -113,18 +119,21 @@ CacheOpen == /\ pc = "cache_open" /\ cache' = [st |-> "trunc"] /\ pc' = "cache_c
              /\ UNCHANGED <<mk, deps, envf, loc>> /\ Keep
 CacheClose == /\ pc = "cache_close" /\ cache' = [st |-> "ok", sver |-> sver, found |-> loc.found, mt |-> clock]
               /\ pc' = "mk_open" /\ Tick /\ UNCHANGED <<mk, deps, envf, loc>> /\ Keep
-MkOpen == /\ pc = "mk_open" /\ mk' = [st |-> "trunc", mt |-> clock] /\ pc' = "mk_close" /\ Tick
-          /\ UNCHANGED <<cache, deps, envf, loc>> /\ Keep
-MkClose == /\ pc = "mk_close"
-           /\ mk' = [st |-> "ok", desc |-> [sver |-> sver, found |-> loc.found, inc |-> loc.seen # {}], mt |-> clock]
-           /\ pc' = "done0" /\ Tick /\ UNCHANGED <<cache, deps, envf, loc>> /\ Keep
+NewMk == [st |-> "ok", desc |-> [sver |-> sver, found |-> loc.found, inc |-> loc.seen # {}], mt |-> clock]
+MkOpen == /\ pc = "mk_open" /\ mk' = (IF AtomicMk THEN mk ELSE [st |-> "trunc", mt |-> clock])
+          /\ pc' = "mk_close" /\ Tick /\ UNCHANGED <<cache, deps, envf, loc>> /\ Keep
+MkClose == /\ pc = "mk_close" /\ mk' = (IF AtomicMk THEN mk ELSE NewMk)
+           /\ pc' = (IF AtomicMk THEN "mk_rename" ELSE "done0") /\ Tick
+           /\ UNCHANGED <<cache, deps, envf, loc>> /\ Keep
+MkRename == /\ pc = "mk_rename" /\ mk' = NewMk /\ pc' = "done0" /\ Tick
+            /\ UNCHANGED <<cache, deps, envf, loc>> /\ Keep
 Running == pc \in {"loadenv","env_open","env_close","check","skip_deps","touch","script","deps_open",
-                   "deps_close","deps_rename","cache_open","cache_close","mk_open","mk_close"}
+                   "deps_close","deps_rename","cache_open","cache_close","mk_open","mk_close","mk_rename"}
 Crash == /\ AllowCrash /\ Running /\ crashes = "none" /\ crashes' = pc /\ pc' = "idle"
          /\ UNCHANGED <<dirs, files, dmt, sver, smt, mk, cache, deps, envf, clock, loc, edits>>
 
 Next == Configure \/ Edit \/ MakeCheck \/ Ack \/ LoadEnv \/ EnvOpen \/ EnvClose \/ Check \/ Touch
-        \/ Script \/ DepsOpen \/ DepsClose \/ DepsRename \/ SkipDeps \/ CacheOpen \/ CacheClose \/ MkOpen \/ MkClose \/ Crash
+        \/ Script \/ DepsOpen \/ DepsClose \/ DepsRename \/ SkipDeps \/ CacheOpen \/ CacheClose \/ MkOpen \/ MkClose \/ MkRename \/ Crash
 Spec == Init /\ [][Next]_vars
 Bound == clock <= MaxClock
 BaseExists == Base(sver) \in dirs /\ (mk.st = "ok" => Base(mk.desc.sver) \in dirs)
